@@ -72,6 +72,61 @@ theorem moveS_same_get {s : State} {t : Nat} {tb : Obj} (ht : s.get t = some tb)
     · subst h2; simp [h1, Ne.symm h1]; cases s.get p <;> simp
     · simp [h1, Ne.symm h1, h2, Ne.symm h2]
 
+/-- general form (also for a move to the parent the object already has) -/
+theorem moveS_getG {s : State} {t : Nat} {tb : Obj} (ht : s.get t = some tb) (tnew : Option Id) (front : Bool)
+    (hself : tnew ≠ some t) (hself' : tb.parent ≠ some t) (j : Nat) :
+    (moveS s t tnew front).get j =
+      if j = t then some { tb with parent := tnew }
+      else (s.get j).map fun po =>
+        { po with children :=
+            if tnew = some j then
+              (if front then t :: (if tb.parent = some j then po.children.erase t else po.children)
+               else (if tb.parent = some j then po.children.erase t else po.children) ++ [t])
+            else (if tb.parent = some j then po.children.erase t else po.children) } := by
+  unfold moveS addChild
+  cases hp : tb.parent with
+  | none =>
+    rw [detach_eq_none ht hp]
+    cases hq : tnew with
+    | none =>
+      simp only [get_modify]
+      by_cases h1 : j = t
+      · subst h1; simp [ht, hp]
+      · simp [h1, Ne.symm h1]
+    | some q =>
+      simp only [get_modify]
+      by_cases h1 : j = t
+      · subst h1
+        have : q ≠ j := fun e => hself (by rw [hq, e])
+        simp [this, ht, hp]
+      · by_cases h2 : q = j
+        · subst h2; simp [h1, Ne.symm h1]
+        · simp [h1, Ne.symm h1, h2, Ne.symm h2]
+  | some p =>
+    rw [detach_eq_some ht hp]
+    have hpt : p ≠ t := fun e => hself' (by rw [hp, e])
+    cases hq : tnew with
+    | none =>
+      simp only [get_modify]
+      by_cases h1 : j = t
+      · subst h1; simp [hpt, ht, hp]
+      · by_cases h2 : p = j
+        · subst h2; simp [h1, Ne.symm h1]
+        · simp [h1, Ne.symm h1, h2, Ne.symm h2]
+    | some q =>
+      have hqt : q ≠ t := fun e => hself (by rw [hq, e])
+      simp only [get_modify]
+      by_cases h1 : j = t
+      · subst h1; simp [hpt, hqt, ht, hp]
+      · by_cases h2 : p = j
+        · subst h2
+          by_cases h3 : q = p
+          · subst h3; simp [h1, Ne.symm h1]; cases s.get q <;> simp
+          · simp [h1, Ne.symm h1, h3]
+        · by_cases h3 : q = j
+          · subst h3; simp [h1, Ne.symm h1, h2, Ne.symm h2]
+          · simp [h1, Ne.symm h1, h2, Ne.symm h2, h3, Ne.symm h3]
+
 theorem nullCtx_moveS (s : State) (t : Nat) (tnew : Option Id) (front : Bool) :
     (moveS s t tnew front).nullCtx = s.nullCtx := by
   unfold moveS; simp
@@ -144,94 +199,23 @@ theorem moveS_wf {s : State} {t : Nat} {tb : Obj} (w : WFp s) (ht : s.get t = so
     rw [hg]; grind
 
 
-theorem moveS_same_wf {s : State} {t : Nat} {tb : Obj} (w : WFp s) (ht : s.get t = some tb) (p : Nat)
-    (hp : tb.parent = some p) (hnp : tb.pending = false) (hk : tb.kind ≠ .limit) (hself' : p ≠ t) :
-    WFp (moveS s t (some p) (isRef tb)) := by
+/-- the child list of `p` is reordered -/
+theorem reorder_wf {s s' : State} {p : Nat} {pb : Obj} (l' : List Id) (w : WFp s) (hpb : s.get p = some pb)
+    (hpk : pb.kind = .plain)
+    (hn : s'.nullCtx = s.nullCtx)
+    (hg : ∀ j : Nat, s'.get j = if j = p then some { pb with children := l' } else s.get j)
+    (hmem : ∀ c, c ∈ l' ↔ c ∈ pb.children) (hnd : l'.Nodup)
+    (hord : l'.Pairwise (fun a b => isPlainAt s a → isPlainAt s b)) : WFp s' := by
   have ⟨h1, h2, h3, h4, h5, h6, h7, h8, h9, h10⟩ := w
-  have hg := moveS_same_get ht p (isRef tb) hp hself'
-  have hk' : ∀ a, isPlainAt (moveS s t (some p) (isRef tb)) a ↔ isPlainAt s a := by
+  have hk' : ∀ a, isPlainAt s' a ↔ isPlainAt s a := by
     apply isPlainAt_of_kinds; intro j; rw [hg]
-    by_cases h : j = t
-    · subst h; simp [ht]
-    · simp only [h, if_false]; split <;> cases s.get j <;> simp
-  obtain ⟨pb, hpb, hpk, hpm⟩ := h1 t tb p ht hp
-  have htm : t ∈ pb.children := by
-    rcases hpm with h | h
-    · exact h
-    · simp [hnp] at h
-  have hnd := h3 p pb hpb
-  have hmem : ∀ c, c ∈ pb.children.erase t ↔ c ≠ t ∧ c ∈ pb.children := fun c => hnd.mem_erase_iff
+    by_cases h : j = p
+    · subst h; simp [hpb]
+    · simp [h]
   constructor
-  · intro y o q hy hpp
-    rw [hg] at hy; rw [hg]
-    by_cases e1 : y = t
-    · subst e1; simp only [if_true, Option.some.injEq] at hy; subst hy
-      rw [hp] at hpp; cases hpp
-      refine ⟨_, by simp [Ne.symm hself', hpb], hpk, ?_⟩
-      left; cases isRef o <;> simp
-    · simp only [e1, if_false] at hy
-      have hy0 : ∃ o0, s.get y = some o0 ∧ o0.parent = o.parent ∧ o0.pending = o.pending := by
-        split at hy
-        · obtain ⟨o0, h0, rfl⟩ := Option.map_eq_some_iff.1 hy; exact ⟨o0, h0, rfl, rfl⟩
-        · exact ⟨o, hy, rfl, rfl⟩
-      obtain ⟨o0, h0, e2, e3⟩ := hy0
-      obtain ⟨qb, hqb, hqk, hqm⟩ := h1 y o0 q h0 (e2 ▸ hpp)
-      by_cases e4 : q = t
-      · subst e4; exact ⟨_, by simp; exact hqb, hqk, e3 ▸ hqm⟩
-      · simp only [e4, if_false]
-        by_cases e5 : p = q
-        · subst e5; rw [hpb] at hqb; cases hqb
-          refine ⟨_, by simp [hpb]; rfl, hqk, ?_⟩
-          rcases hqm with h | h
-          · left; cases isRef tb <;> simp [hmem, e1, h]
-          · right; exact e3 ▸ h
-        · simp only [e5, if_false]; exact ⟨qb, hqb, hqk, e3 ▸ hqm⟩
-  · intro y o c hy hc
-    rw [hg] at hy; rw [hg]
-    by_cases e1 : y = t
-    · subst e1; simp only [if_true, Option.some.injEq] at hy; subst hy
-      obtain ⟨co, hco, hcp, hcpe⟩ := h2 _ _ c ht hc
-      have : c ≠ y := by
-        intro e; subst e; rw [ht] at hco; cases hco; rw [hp] at hcp; cases hcp; exact hself' rfl
-      simp only [this, if_false]
-      by_cases e5 : p = c
-      · subst e5; rw [hpb] at hco; cases hco; exact ⟨_, by simp, hcp, hcpe⟩
-      · simp only [e5, if_false]; exact ⟨co, hco, hcp, hcpe⟩
-    · simp only [e1, if_false] at hy
-      by_cases e2 : p = y
-      · subst e2
-        simp only [if_true, hpb, Option.map_some, Option.some.injEq] at hy; subst hy
-        have hc' : c = t ∨ (c ≠ t ∧ c ∈ pb.children) := by
-          cases hir : isRef tb <;> simp [hir, hmem] at hc <;> tauto
-        rcases hc' with rfl | ⟨hct, hcm⟩
-        · exact ⟨tb, by simp, hp, hnp⟩
-        · obtain ⟨co, hco, hcp, hcpe⟩ := h2 p pb c hpb hcm
-          simp only [hct, if_false]
-          by_cases e5 : p = c
-          · subst e5; rw [hpb] at hco; cases hco; exact ⟨_, by simp [hpb]; rfl, hcp, hcpe⟩
-          · simp only [e5, if_false]; exact ⟨co, hco, hcp, hcpe⟩
-      · simp only [e2, if_false] at hy
-        obtain ⟨co, hco, hcp, hcpe⟩ := h2 y o c hy hc
-        by_cases e4 : c = t
-        · subst e4; rw [ht] at hco; cases hco; rw [hp] at hcp; cases hcp; exact absurd rfl e2
-        · simp only [e4, if_false]
-          by_cases e5 : p = c
-          · subst e5; rw [hpb] at hco; cases hco; exact ⟨_, by simp [hpb]; rfl, hcp, hcpe⟩
-          · simp only [e5, if_false]; exact ⟨co, hco, hcp, hcpe⟩
-  · intro y o hy
-    rw [hg] at hy
-    by_cases e1 : y = t
-    · subst e1; simp only [if_true, Option.some.injEq] at hy; subst hy; exact h3 _ _ ht
-    · simp only [e1, if_false] at hy
-      by_cases e2 : p = y
-      · subst e2
-        simp only [if_true, hpb, Option.map_some, Option.some.injEq] at hy; subst hy
-        have hne : t ∉ pb.children.erase t := fun h => ((hmem t).1 h).1 rfl
-        cases isRef tb
-        · simp only [Bool.false_eq_true, if_false]
-          exact List.Nodup.append (hnd.erase t) (List.nodup_singleton t) (by simpa using hne)
-        · simp only [if_true]; exact List.nodup_cons.2 ⟨hne, hnd.erase t⟩
-      · simp only [e2, if_false] at hy; exact h3 y o hy
+  · intro y o q hy hpp; rw [hg] at hy; rw [hg]; grind
+  · intro y o c hy hc; rw [hg] at hy; rw [hg]; grind
+  · intro y o hy; rw [hg] at hy; grind
   · intro y o r hy hc; rw [hg] at hy; rw [hg]; grind
   · intro y o hy; rw [hg] at hy; grind
   · intro y o r hy hc; rw [hg] at hy; rw [hg]; grind
@@ -240,36 +224,80 @@ theorem moveS_same_wf {s : State} {t : Nat} {tb : Obj} (w : WFp s) (ht : s.get t
   · intro y o hy
     simp only [hk']
     rw [hg] at hy
-    by_cases e1 : y = t
-    · subst e1; simp only [if_true, Option.some.injEq] at hy; subst hy; exact h9 _ _ ht
-    · simp only [e1, if_false] at hy
-      by_cases e2 : p = y
-      · subst e2
-        simp only [if_true, hpb, Option.map_some, Option.some.injEq] at hy; subst hy
-        have hp9 := (h9 p pb hpb).sublist (List.erase_sublist (a := t))
-        cases hir : isRef tb with
-        | true =>
-          simp only [if_true]
-          refine List.Pairwise.cons ?_ hp9
-          intro b _ ⟨ao, ha1, ha2⟩
-          rw [ht] at ha1; cases ha1
-          simp [isRef, ha2] at hir
-        | false =>
-          simp only [Bool.false_eq_true, if_false]
-          rw [List.pairwise_append]
-          refine ⟨hp9, List.pairwise_singleton _ _, ?_⟩
-          intro a _ b hb _
-          simp only [List.mem_singleton] at hb; subst hb
-          refine ⟨tb, ht, ?_⟩
-          cases hkk : tb.kind with
-          | plain => rfl
-          | limit => exact absurd hkk hk
-          | ref tt => simp [isRef, hkk] at hir
-      · simp only [e2, if_false] at hy; exact h9 y o hy
-  · intro n hn
-    rw [nullCtx_moveS] at hn
-    obtain ⟨nb, hb1, hb2, hb3, hb4, hb5⟩ := h10 n hn
+    by_cases e : y = p
+    · subst e; simp only [if_true, Option.some.injEq] at hy; subst hy; exact hord
+    · simp only [e, if_false] at hy; exact h9 y o hy
+  · intro n hnn
+    rw [hn] at hnn
+    obtain ⟨nb, hb1, hb2, hb3, hb4, hb5⟩ := h10 n hnn
     rw [hg]; grind
+
+theorem moveS_same_wf {s : State} {t : Nat} {tb : Obj} (w : WFp s) (ht : s.get t = some tb) (p : Nat)
+    (hp : tb.parent = some p) (hnp : tb.pending = false) (hk : tb.kind ≠ .limit) (hself' : p ≠ t) :
+    WFp (moveS s t (some p) (isRef tb)) := by
+  have ⟨h1, h2, h3, h4, h5, h6, h7, h8, h9, h10⟩ := w
+  obtain ⟨pb, hpb, hpk, hpm⟩ := h1 t tb p ht hp
+  have htm : t ∈ pb.children := by
+    rcases hpm with h | h
+    · exact h
+    · simp [hnp] at h
+  have hnd := h3 p pb hpb
+  have hme : ∀ c, c ∈ pb.children.erase t ↔ c ≠ t ∧ c ∈ pb.children := fun c => hnd.mem_erase_iff
+  have hne : t ∉ pb.children.erase t := fun h => ((hme t).1 h).1 rfl
+  have hp9 := (h9 p pb hpb).sublist (List.erase_sublist (a := t))
+  refine reorder_wf (if isRef tb then t :: pb.children.erase t else pb.children.erase t ++ [t]) w hpb hpk
+    (nullCtx_moveS _ _ _ _) ?_ ?_ ?_ ?_
+  · intro j
+    rw [moveS_same_get ht p (isRef tb) hp hself']
+    by_cases e1 : j = t
+    · subst e1; simp [Ne.symm hself', ht]
+    · by_cases e2 : p = j
+      · subst e2; simp [e1, hpb]
+      · simp [e1, e2, Ne.symm e2]
+  · intro c
+    cases isRef tb
+    · simp only [Bool.false_eq_true, if_false, List.mem_append, List.mem_singleton, hme]
+      constructor
+      · rintro (⟨-, h⟩ | rfl)
+        · exact h
+        · exact htm
+      · intro h; by_cases e : c = t
+        · right; exact e
+        · left; exact ⟨e, h⟩
+    · simp only [if_true, List.mem_cons, hme]
+      constructor
+      · rintro (rfl | ⟨-, h⟩)
+        · exact htm
+        · exact h
+      · intro h; by_cases e : c = t
+        · left; exact e
+        · right; exact ⟨e, h⟩
+  · cases isRef tb
+    · simp only [Bool.false_eq_true, if_false]
+      rw [List.nodup_append]
+      refine ⟨hnd.erase t, by simp, ?_⟩
+      intro a ha b hb
+      simp at hb; subst hb
+      exact fun e => hne (e ▸ ha)
+    · simp only [if_true]; exact List.nodup_cons.2 ⟨hne, hnd.erase t⟩
+  · cases hir : isRef tb with
+    | true =>
+      simp only [if_true]
+      refine List.Pairwise.cons ?_ hp9
+      intro b _ ⟨ao, ha1, ha2⟩
+      rw [ht] at ha1; cases ha1
+      simp [isRef, ha2] at hir
+    | false =>
+      simp only [Bool.false_eq_true, if_false]
+      rw [List.pairwise_append]
+      refine ⟨hp9, List.pairwise_singleton _ _, ?_⟩
+      intro a _ b hb _
+      simp only [List.mem_singleton] at hb; subst hb
+      refine ⟨tb, ht, ?_⟩
+      cases hkk : tb.kind with
+      | plain => rfl
+      | limit => exact absurd hkk hk
+      | ref tt => simp [isRef, hkk] at hir
 
 theorem moveS_same_ranked {rk : Nat → Nat} {s : State} {t : Nat} {tb : Obj} (wr : Ranked rk s)
     (ht : s.get t = some tb) (p : Nat) (front : Bool) (hp : tb.parent = some p) (hself' : p ≠ t) :
